@@ -404,6 +404,173 @@ fn mem_forged(key_mode: bool, len: u64, read_size: usize, idx: u64, announced: u
     report(o, peak, &mm, &format!(" hdr_off={} flen={} bigreq={}", off, flen, bigreq))
 }
 
+// ---------------------------------------------------------------------------------------------
+// C11, sinks that take little per call and files from an independent writer:
+//   mem_key_encw  <len> <read_size> <write_cap>      mem_pass_encw <len> <read_size> <write_cap>
+//     as mem_*_enc, but the sink accepts at most <write_cap> bytes per write call (short writes: a socket,
+//     a rate limiter, a bounded ring); what it accepts is counted and checksummed, nothing is kept.
+//   mem_key_decx  <nonfinal_chunks> <read_size> <minlen> <maxlen> <write_cap|0>     mem_pass_decx ...
+//     a file written chunk by chunk by THIS harness from the exported primitives (noise_encrypt / scrypt, HKDF,
+//     the Noise AEAD): <nonfinal_chunks> non-final chunks whose plaintext lengths are drawn from
+//     <minlen>..<maxlen> (0 = empty chunks, which kestrel's own encryptor never writes but the format allows),
+//     then a final chunk of 7 bytes; the file is decrypted from a BufReader<File> under the meter exactly as in
+//     mem_*_dec (write_cap 0 = the sink takes everything).  Reply: as mem_*_dec plus flen=<file length> plain=<plaintext length>
+struct CapSink<'a> {
+    m: &'a RefCell<Meter>,
+    cap: usize,
+}
+impl<'a> Write for CapSink<'a> {
+    fn write(&mut self, buf: &[u8]) -> io::Result<usize> {
+        let mut m = self.m.borrow_mut();
+        m.sample();
+        let lag = m.r.saturating_sub(m.w);
+        if lag > m.maxlag {
+            m.maxlag = lag;
+        }
+        let gap = m.r - m.r_at_last_write;
+        if gap > m.maxgap {
+            m.maxgap = gap;
+        }
+        m.r_at_last_write = m.r;
+        let n = buf.len().min(self.cap);
+        m.outsum = fnv(m.outsum, &buf[..n]);
+        m.w += n as u64;
+        m.writes += 1;
+        Ok(n)
+    }
+    fn flush(&mut self) -> io::Result<()> {
+        let mut m = self.m.borrow_mut();
+        m.sample();
+        m.flushes += 1;
+        Ok(())
+    }
+}
+
+fn mem_encw(key_mode: bool, len: u64, read_size: usize, write_cap: usize) -> String {
+    let m = RefCell::new(Meter::new());
+    let mut rd = GenReader { left: len, cap: read_size, st: SEED, m: &m };
+    let mut wr = CapSink { m: &m, cap: write_cap };
+    let base = mem_reset_peak();
+    m.borrow_mut().base = base;
+    let res = encrypt_into(key_mode, &mut rd, &mut wr);
+    let peak = mem_peak().saturating_sub(base);
+    let o = match res {
+        Ok(()) => "ok".to_string(),
+        Err(e) => format!("err:{}", e),
+    };
+    let mm = m.borrow();
+    report(o, peak, &mm, "")
+}
+
+// the independent writer: returns (file length, plaintext length, FNV of the plaintext)
+fn decx_write(key_mode: bool, count: u64, minlen: usize, maxlen: usize, path: &str) -> Result<(u64, u64, u64), String> {
+    let f = File::create(path).map_err(|e| format!("tmpfile:{:?}", e.kind()))?;
+    let mut wr = BufWriter::with_capacity(1 << 20, f);
+    let ioe = |e: io::Error| format!("tmpfile:{:?}", e.kind());
+    let key: Vec<u8>;
+    let aad: Vec<u8>;
+    let mut flen: u64;
+    if key_mode {
+        let s = PrivateKey::try_from(&ALICE_SK[..]).unwrap();
+        let spk = s.to_public().unwrap();
+        let rpk = PrivateKey::try_from(&BOB_SK[..]).unwrap().to_public().unwrap();
+        let e = PrivateKey::try_from(&EPH_SK[..]).unwrap();
+        let epk = e.to_public().unwrap();
+        let pk = PayloadKey::new(&PAYLOAD);
+        let prologue = [0x65u8, 0x67, 0x6b, 0x10];
+        let msg = kc::noise_encrypt(&s, &spk, &rpk, Some(&e), Some(&epk), &prologue, &pk).map_err(|_| "prep_err:noise".to_string())?;
+        wr.write_all(&prologue).map_err(ioe)?;
+        wr.write_all(&msg.ciphertext).map_err(ioe)?;
+        flen = 4 + msg.ciphertext.len() as u64;
+        key = kc::hkdf_sha256(&[], pk.as_bytes(), &msg.handshake_hash, 32);
+        aad = Vec::new();
+    } else {
+        let magic = [0x65u8, 0x67, 0x6b, 0x20];
+        wr.write_all(&magic).map_err(ioe)?;
+        wr.write_all(&SALT).map_err(ioe)?;
+        flen = 36;
+        key = kc::scrypt(PASSWORD, &SALT, 32768, 8, 1, 32);
+        aad = magic.to_vec();
+    }
+    let mut st: u64 = SEED ^ 0x5151;
+    let mut sum = FNV_OFF;
+    let mut plain: u64 = 0;
+    let mut pt = Vec::with_capacity(maxlen.max(7));
+    for i in 0..=count {
+        let last = i == count;
+        st = st.wrapping_mul(6364136223846793005).wrapping_add(1442695040888963407);
+        let n = if last { 7 } else { minlen + ((st >> 33) as usize) % (maxlen - minlen + 1) };
+        pt.clear();
+        for _ in 0..n {
+            st = st.wrapping_mul(6364136223846793005).wrapping_add(1442695040888963407);
+            pt.push((st >> 56) as u8);
+        }
+        sum = fnv(sum, &pt);
+        plain += n as u64;
+        let flag: u32 = if last { 1 } else { 0 };
+        let mut ad = aad.clone();
+        ad.extend_from_slice(&flag.to_be_bytes());
+        ad.extend_from_slice(&(n as u32).to_be_bytes());
+        let ct = kc::verif_hooks::chapoly_encrypt_noise(&key, i, &ad, &pt);
+        wr.write_all(&i.to_be_bytes()).map_err(ioe)?;
+        wr.write_all(&flag.to_be_bytes()).map_err(ioe)?;
+        wr.write_all(&(n as u32).to_be_bytes()).map_err(ioe)?;
+        wr.write_all(&ct).map_err(ioe)?;
+        flen += 16 + ct.len() as u64;
+    }
+    wr.flush().map_err(ioe)?;
+    Ok((flen, plain, sum))
+}
+
+fn mem_decx(key_mode: bool, count: u64, read_size: usize, minlen: usize, maxlen: usize, write_cap: usize) -> String {
+    if minlen > maxlen || maxlen > 65536 {
+        return "outcome=badargs".into();
+    }
+    let path = format!(
+        "/tmp/kv_libdrv_memx_{}_{}.bin",
+        std::process::id(),
+        TMP_COUNTER.fetch_add(1, Ordering::Relaxed)
+    );
+    let tmp = TmpFile(path.clone());
+    let (flen, plain, plain_sum) = match decx_write(key_mode, count, minlen, maxlen, &path) {
+        Ok(x) => x,
+        Err(e) => return format!("outcome={}", e),
+    };
+    let f = match File::open(&path) {
+        Ok(f) => f,
+        Err(e) => return format!("outcome=tmpfile:{:?}", e.kind()),
+    };
+    drop(tmp);
+    let m = RefCell::new(Meter::new());
+    let mut rd = CapReader { inner: BufReader::new(f), cap: read_size, m: &m };
+    let mut wr = CapSink { m: &m, cap: if write_cap == 0 { usize::MAX } else { write_cap } };
+    let res: Result<(), String>;
+    let peak;
+    if key_mode {
+        let r = PrivateKey::try_from(&BOB_SK[..]).unwrap();
+        let rpk = r.to_public().unwrap();
+        let base = mem_reset_peak();
+        m.borrow_mut().base = base;
+        res = kc::decrypt::key_decrypt(&mut rd, &mut wr, &r, &rpk, AsymFileFormat::V1)
+            .map(|_| ())
+            .map_err(|e| dec_err(&e));
+        peak = mem_peak().saturating_sub(base);
+    } else {
+        let base = mem_reset_peak();
+        m.borrow_mut().base = base;
+        res = kc::decrypt::pass_decrypt(&mut rd, &mut wr, PASSWORD, PassFileFormat::V1).map_err(|e| dec_err(&e));
+        peak = mem_peak().saturating_sub(base);
+    }
+    drop(rd);
+    let o = match res {
+        Ok(()) => "ok".to_string(),
+        Err(e) => format!("err:{}", e),
+    };
+    let mm = m.borrow();
+    let matched = mm.outsum == plain_sum && mm.w == plain;
+    report(o, peak, &mm, &format!(" match={} flen={} plain={}", if matched { 1 } else { 0 }, flen, plain))
+}
+
 pub fn run(a: &[&str]) -> String {
     if a.len() < 3 {
         return "outcome=badargs".into();
@@ -411,6 +578,23 @@ pub fn run(a: &[&str]) -> String {
     let len: u64 = a[1].parse().expect("len");
     let read_size: usize = a[2].parse().expect("read_size");
     assert!(read_size > 0, "read_size must be positive");
+    if a[0] == "mem_key_encw" || a[0] == "mem_pass_encw" {
+        if a.len() < 4 {
+            return "outcome=badargs".into();
+        }
+        let wcap: usize = a[3].parse().expect("write_cap");
+        assert!(wcap > 0, "write_cap must be positive");
+        return mem_encw(a[0] == "mem_key_encw", len, read_size, wcap);
+    }
+    if a[0] == "mem_key_decx" || a[0] == "mem_pass_decx" {
+        if a.len() < 6 {
+            return "outcome=badargs".into();
+        }
+        let minlen: usize = a[3].parse().expect("minlen");
+        let maxlen: usize = a[4].parse().expect("maxlen");
+        let wcap: usize = a[5].parse().expect("write_cap");
+        return mem_decx(a[0] == "mem_key_decx", len, read_size, minlen, maxlen, wcap);
+    }
     if a[0] == "mem_key_forged" || a[0] == "mem_pass_forged" {
         if a.len() < 6 {
             return "outcome=badargs".into();
